@@ -5,12 +5,18 @@
    representable documents: the destination read back holds the same number of cues in the same order, times
    truncated to the millisecond, the same text per line (Model/Conv.v is the conversion as the shared cue list
    makes it; its bytes are compared with the library's on every generated document, suites convsv/convvs).
-   The other format pairs, the operation sequences and the CLI are decided on the implementation by the harness (own
+   Operations in between (Model/ConvOps.v composes the codec models with the operation models of C09-C15; its bytes
+   are compared with the library's on every generated document x operation sequence, suite convops): for ALL
+   representable SubRip documents and ALL sequences of sync / fragment / unfragment / order / optimize / linear
+   correction / merge-with-another-representable-document, every cue that comes out carries the lines of a source
+   cue, and - provided the times the operations produce are non-negative, the property's proviso - the converted
+   file reads back as exactly the transformed list (ms, renumbered), towards SubRip and towards WebVTT.
+   The other format pairs and the CLI are decided on the implementation by the harness (own
    encoders for every source format, destination re-read and compared with the composed specifications of the
    operations, which are themselves the theorems of C09-C15): correspondence/exploration, not proof. *)
 From Coq Require Import List ZArith NArith.
-From Astisub Require Import Kit.Base Kit.Str Model.Files Model.Srt Model.Vtt Model.Conv Proofs.FilesProofs.
-From Astisub Require Import Proofs.SrtProofs Proofs.VttDoc Proofs.ConvProofs.
+From Astisub Require Import Kit.Base Kit.Str Model.Files Model.Ops Model.Srt Model.Vtt Model.Conv Model.ConvOps Proofs.FilesProofs.
+From Astisub Require Import Proofs.SrtProofs Proofs.VttDoc Proofs.ConvProofs Proofs.ConvOpsProofs.
 Import ListNotations.
 
 (* SubRip file -> WebVTT file: cues, order, times to the millisecond, text per line *)
@@ -29,6 +35,39 @@ Theorem C07_vtt_to_srt : forall d so ro,
                      map sview l' = map vview_ms (vd_items (ndoc d so ro)) /\ length l' = length (vd_items d).
 Proof. exact vtt_to_srt. Qed.
 Print Assumptions C07_vtt_to_srt.
+
+(* SubRip file -> any sequence of operations -> SubRip file: reads back as the operations applied to the source cues *)
+Theorem C07_srt_ops_srt : forall (ops : list cop) (l : list sitem),
+  Forall repr_item l -> l <> [] -> (Z.of_nat (length l) <= max_int64)%Z -> Forall (cop_ok repr_item) ops ->
+  let l' := srt_ops ops (renumber_truncate l) in
+  Forall time_ok l' -> l' <> [] -> (Z.of_nat (length l') <= max_int64)%Z ->
+  exists src dst, write_srt l = Ok src /\ convert_srt_ops_srt ops src = Ok dst /\ read_srt dst = Ok (renumber_truncate l').
+Proof. exact srt_ops_srt. Qed.
+Print Assumptions C07_srt_ops_srt.
+
+(* ... -> WebVTT file: same cues, order, times (ms) and text per line as the transformed list *)
+Theorem C07_srt_ops_vtt : forall (ops : list cop) (l : list sitem),
+  Forall repr_item l -> l <> [] -> (Z.of_nat (length l) <= max_int64)%Z ->
+  let l' := srt_ops ops (renumber_truncate l) in
+  repr_vdoc (conv_sv l') [] [] ->
+  exists src dst d', write_srt l = Ok src /\ convert_srt_ops_vtt ops src = Ok dst /\ read_vtt dst = Ok d' /\
+                     map vview (vd_items d') = map sview_ms l'.
+Proof. exact srt_ops_vtt. Qed.
+Print Assumptions C07_srt_ops_vtt.
+
+(* whatever the operations, the lines of every resulting cue are the lines of a source cue: representability of the
+   text is preserved by every operation sequence (Q = any property of a cue's lines) *)
+Theorem C07_ops_keep_content : forall (Q : list (list srun) -> Prop) ops l,
+  Forall (fun it => Q (si_lines it)) l -> Forall (cop_ok (fun it => Q (si_lines it))) ops ->
+  Forall (fun it => Q (si_lines it)) (srt_ops ops l).
+Proof. exact srt_ops_lines. Qed.
+Print Assumptions C07_ops_keep_content.
+
+Example C07_ops_example :
+  Forall repr_item ex_ops_src /\ Forall (cop_ok repr_item) ex_ops /\
+  map (fun s => (si_st s, si_en s)) (srt_ops ex_ops (renumber_truncate ex_ops_src)) =
+    [(0, 400000000); (1500000000, 5500000000); (6500000000, 7500000000)]%Z.
+Proof. split; [exact ex_ops_src_repr | split; [exact ex_ops_ok | exact ex_ops_result]]. Qed.
 
 Example C07_conversion_example : Forall repr_item ex_conv /\ repr_vdoc (conv_sv (renumber_truncate ex_conv)) [] [].
 Proof. split; [exact ex_conv_srt | exact ex_conv_repr]. Qed.
